@@ -347,5 +347,11 @@ def tasks(tier):
 
 
 def main(tier):
-  return H.standard_main(PID, tier, tasks(tier), not_covered=NOT_COVERED,
+  extra = None
+  if tier == "thorough":
+    extra = {"lean_lemmas": H.lean_lemmas()}
+    if extra["lean_lemmas"].get("checked") is False and "returncode" in extra["lean_lemmas"]:
+      print(f"ENGINE-ERROR property={PID}: lemmas/Spec.lean does not check: {extra['lean_lemmas']['output'][-300:]}")
+      return 3
+  return H.standard_main(PID, tier, tasks(tier), not_covered=NOT_COVERED, extra=extra,
                          structural=["symbolic size n >= 1 (incl. the 1x1 branch), p >= 1, padding None / symbolic, relative / absolute ridge, Newton / eigh"])
